@@ -126,6 +126,7 @@ class Prov:
         self.captures = captures
         self._memo = {}
         self._stack = set()
+        self._frames = []
 
     # ---- places
     def _index_const(self, l):
@@ -185,24 +186,61 @@ class Prov:
         return ("field", t, n)
 
     def local_tree(self, l, depth=0):
-        body = self.body
+        """Tree of local l. A loop-carried local is cut at its second occurrence on the evaluation stack, so a tree
+        depends on the stack it was built under; the memo is therefore CONTEXT-EXACT: an entry records the cuts it
+        hit (H) and the locals it visited (V) and is reused only under a stack S with H <= S and V disjoint from S,
+        where a fresh evaluation would yield the identical tree. Trees are thus independent of the order in which
+        a rule happens to ask for them (a refactoring that reorders statements cannot respell them)."""
         if depth > MAX_DEPTH:
             return ("unknown", "depth")
-        if l in self._memo:
-            return self._memo[l]
-        if l in self._stack:
+        S = self._stack
+        fr = self._frames
+        if l in S:
             # loop-carried value: keep its identity as an opaque local
+            if fr:
+                fr[-1][0].add(l)
             return ("path", ("local", l), ())
+        for (H, V, t) in self._memo.get(l, ()):
+            if H <= S and V.isdisjoint(S):
+                if fr:
+                    fr[-1][0].update(H)
+                    fr[-1][1].update(V)
+                return t
+        frame = (set(), {l})
+        fr.append(frame)
+        # Only locals that can head a def-use cycle (several definitions, parameters that are reassigned, op-assigned
+        # or partially written ones) are cut points. A single-definition temporary is re-evaluated instead, so the
+        # spelling of a loop-carried value does not depend on which temporary of the loop body a rule started from.
+        cut = self._cuttable(l)
+        if cut:
+            S.add(l)
+        try:
+            t = self._local_tree_raw(l, depth)
+        finally:
+            if cut:
+                S.discard(l)
+            fr.pop()
+        H = frozenset(frame[0] - {l})
+        V = frozenset(frame[1])
+        self._memo.setdefault(l, []).append((H, V, t))
+        if fr:
+            fr[-1][0].update(H)
+            fr[-1][1].update(V)
+        return t
+
+    def _cuttable(self, l):
+        d = self.d
+        n = len(d.whole.get(l, ())) + (1 if 1 <= l <= self.body.argc else 0)
+        return n != 1 or l in d.partial or l in d.mut_borrowed or bool(d.opassign.get(l))
+
+    def _local_tree_raw(self, l, depth):
+        body = self.body
         if 1 <= l <= body.argc and not self.d.whole.get(l):
             if body.is_closure and l == 1:
-                t = ("path", ("env",), ())
-            else:
-                t = ("path", ("arg", l), ())
-            self._memo[l] = t
-            return t
+                return ("path", ("env",), ())
+            return ("path", ("arg", l), ())
         ds = self.d.whole.get(l, [])
-        self._stack.add(l)
-        try:
+        if True:
             trees = []
             if 1 <= l <= body.argc:
                 trees.append(("path", ("arg", l), ()))
@@ -251,9 +289,6 @@ class Prov:
                         t = ("unknown", "accumulated:_%d" % l)
                         break
                     t = ("call", "core::ops::%s" % OPASSIGN[name], OPASSIGN[name], (t, self.op_tree(operand, depth + 1)))
-        finally:
-            self._stack.discard(l)
-        self._memo[l] = t
         return t
 
     def _matches_meaning(self, ds, depth):
@@ -468,6 +503,7 @@ class Prov:
                 sub.captures = None
                 sub._memo = {}
                 sub._stack = set()
+                sub._frames = []
                 t = sub.local_tree(0)
                 # _0 = &X  -> X
                 return ("promoted", t)
